@@ -476,6 +476,34 @@ func c13Run(c *fw.Case, n int) {
 		for _, e := range want {
 			perTargetOps[e.target]++
 		}
+		// target type / version overrides: they choose the model of a target that exists, they do not make an unknown
+		// target known; an override to a model for which no plugin is loaded makes the request unacceptable
+		{
+			ov := &configapi.TargetVersionOverrides{Overrides: map[string]*configapi.TargetTypeVersion{}}
+			var known []string
+			for t := range nTargets {
+				if t == "t1" || t == "t2" {
+					known = append(known, t)
+				}
+			}
+			sort.Strings(known)
+			switch {
+			case wantRefused == "unknown-target" && r.Chance(1, 2):
+				ov.Overrides["ghost"] = &configapi.TargetTypeVersion{TargetType: "synth", TargetVersion: "1.0.0"}
+				c.Count("requests_with_override_for_unknown_target", 1)
+			case wantRefused == "" && len(known) > 0 && r.Chance(1, 10):
+				ov.Overrides[known[r.Intn(len(known))]] = &configapi.TargetTypeVersion{TargetType: "nosuchmodel", TargetVersion: "9.9.9"}
+				wantRefused = "override-to-unknown-model"
+			case len(known) > 0 && r.Chance(1, 6):
+				ov.Overrides[known[r.Intn(len(known))]] = &configapi.TargetTypeVersion{TargetType: "synth", TargetVersion: "1.0.0"}
+			}
+			if len(ov.Overrides) > 0 {
+				if b, err := ov.Marshal(); err == nil {
+					req.Extension = append(req.Extension, &gnmi_ext.Extension{Ext: &gnmi_ext.Extension_RegisteredExt{RegisteredExt: &gnmi_ext.RegisteredExtension{Id: configapi.TargetVersionOverridesID, Msg: b}}})
+					c.Count("requests_with_version_overrides", 1)
+				}
+			}
+		}
 		if r.Chance(1, 12) {
 			req.Extension = append(req.Extension, &gnmi_ext.Extension{Ext: &gnmi_ext.Extension_RegisteredExt{RegisteredExt: &gnmi_ext.RegisteredExtension{Id: configapi.TransactionStrategyExtensionID, Msg: []byte{0xff, 0xff, 0xff}}}})
 			if wantRefused == "" {
